@@ -579,19 +579,34 @@ def check_default_t(prog, check, rule='C10.R5'):
     check.ob(rule, '%s::default-time-axis-is-endogenous' % f.key,
              isinstance(recv, ast.Attribute) and recv.attr == 'Endogenous', '%s:%d' % (f.module.rel, site.line),
              'default t goes to %s' % unparse(recv), 'a block without a t equation')
-    # guarded by `not flag`
+    # guarded by "the user supplied no t": either a flag that is raised only for a line whose variable is t, or a look-up of
+    # 't' in the table of parsed equations
+    from ..cfg import atomic_facts
     flag = None
-    for t in g.nodes:
-        if t.kind == 'test' and g.dominates(t, site) and isinstance(t.ast, ast.UnaryOp) and isinstance(t.ast.op, ast.Not) \
-                and isinstance(t.ast.operand, ast.Name):
-            tgt = [b for b, l in g.succ[t.id] if l is False]
-            if site.id not in g.reach(tgt, include_src=True):
-                flag = t.ast.operand.id
-    ok = flag is not None
+    table_guard = False
+    for test, outcome in g.conditions_at(site):
+        for _, v, e in atomic_facts(test, outcome):
+            if v is False and isinstance(e, ast.Name):
+                flag = e.id
+            if v is False and isinstance(e, ast.Compare) and len(e.ops) == 1 and isinstance(e.ops[0], ast.In) and \
+                    getattr(e.left, 'value', None) == 't' and isinstance(e.comparators[0], ast.Attribute) and \
+                    e.comparators[0].attr in ('AllEquations',):
+                table_guard = True
+    ok = flag is not None or table_guard
     check.ob(rule, '%s::default-time-axis-guarded' % f.key, ok, '%s:%d' % (f.module.rel, site.line),
-             ('default t appended only when `%s` is false' % flag) if ok else 'default t appended unconditionally',
+             ('default t appended only when `%s` is false' % flag) if flag else
+             ("default t appended only when 't' is not among the parsed equations" if table_guard else 'default t appended unconditionally'),
              'a block that defines t itself: t would be defined twice')
     if not ok:
+        return
+    if flag is None:
+        # every parsed equation is entered in the table under its own name
+        stores = [n for n in ast.walk(loop) if isinstance(n, ast.Assign) and any(
+            isinstance(t_, ast.Subscript) and isinstance(t_.value, ast.Attribute) and t_.value.attr == 'AllEquations' for t_ in n.targets)]
+        good = bool(stores)
+        check.ob(rule, '%s::user-t-detected' % f.key, good, f.where,
+                 'every parsed equation is recorded in the table the guard consults' if good else
+                 'the table the guard consults is not filled by the parser loop', 'a block with / without a user-defined time variable')
         return
     # flag: initialised False before the loop, set True only under a test that the LHS is 't'
     inits = [n for n in ast.walk(f.node) if isinstance(n, ast.Assign) and flag in target_names(n.targets[0])]
@@ -602,15 +617,21 @@ def check_default_t(prog, check, rule='C10.R5'):
         in_loop = any(a in ast.walk(st) for st in loop.body)
         if isinstance(a.value, ast.Constant) and a.value.value is False and not in_loop:
             continue
+        mentions_t = lambda x: any(isinstance(c, ast.Constant) and c.value == 't' for c in ast.walk(x))
         if isinstance(a.value, ast.Constant) and a.value.value is True and in_loop:
-            p = getattr(a, '_parent', None)
-            okp = isinstance(p, ast.If) and any(isinstance(c, ast.Constant) and c.value == 't' for c in ast.walk(p.test)) \
-                and a in p.body
+            okp = any(mentions_t(test) and outcome is True for test, outcome in g.conditions_at(g.node_of(a)))
             if okp:
                 n_true += 1
                 continue
             why.append('flag set without testing that the variable is t (line %d)' % a.lineno)
             good = False
+            continue
+        if in_loop and isinstance(a.value, ast.BoolOp) and isinstance(a.value.op, ast.Or) and \
+                any(isinstance(x, ast.Name) and x.id == flag for x in a.value.values) and \
+                all((isinstance(x, ast.Name) and x.id == flag) or mentions_t(x) for x in a.value.values):
+            n_true += 1         # flag = flag or <variable is t>
+            continue
+        if in_loop and isinstance(a.value, ast.Compare) and mentions_t(a.value) and False:
             continue
         why.append('unexpected assignment to the flag at line %d' % a.lineno)
         good = False
